@@ -203,6 +203,8 @@ func decodeOp(op string, b []byte) string {
 		return "ok " + strconv.Itoa(n)
 	case "walk":
 		return rd.Walk(b, b)
+	case "typed":
+		return typedOp(b)
 	case "c13":
 		return c13Op(b)
 	}
@@ -331,4 +333,78 @@ func encodeOp(op, arg string) string {
 		return fmt.Sprintf("SIZE-MISMATCH reported=%d appended=%d", n, buf.Len())
 	}
 	return hx.Hex(buf.Bytes())
+}
+
+// typedOp runs the remaining public read entry points (OpenValueErr, the typed list wrappers, the
+// string clone decoder) on arbitrary bytes and judges C02 directly: no panic, every reported size
+// within the input, every returned view inside the input. The model answers "ok" for this op.
+func typedOp(b []byte) (out string) {
+	defer func() {
+		if e := recover(); e != nil {
+			out = "PANIC typed"
+		}
+	}()
+	bad := ""
+	size := func(what string, n int) {
+		if (n < 0 || n > len(b)) && bad == "" {
+			bad = "SIZE-" + what
+		}
+	}
+	view := func(what string, v []byte) {
+		if !rd.Inside(b, v) && bad == "" {
+			bad = "OUTSIDE " + what
+		}
+	}
+	const maxElems = 64
+	if v, err := spec.OpenValueErr(b); err == nil {
+		view("OpenValueErr", v)
+	}
+	if l, err := spec.OpenListErr(b); err == nil {
+		view("OpenListErr", l.Raw())
+	}
+	if vl, err := spec.OpenValueListErr(b, spec.DecodeInt64); err == nil {
+		for i := 0; i < vl.Len() && i < maxElems; i++ {
+			vl.Get(i)
+			view("ValueList.GetBytes", vl.GetBytes(i))
+		}
+	}
+	vs := spec.OpenValueList(b, spec.DecodeString)
+	for i := 0; i < vs.Len() && i < maxElems; i++ {
+		x := vs.Get(i).Unwrap()
+		view("ValueList[String].Get", unsafe.Slice(unsafe.StringData(x), len(x)))
+	}
+	if pv, n, err := spec.ParseValueList(b, spec.DecodeBytes); err == nil {
+		size("ParseValueList", n)
+		for i := 0; i < pv.Len() && i < maxElems; i++ {
+			view("ValueList[Bytes].Get", pv.Get(i))
+		}
+	} else {
+		size("ParseValueList", n)
+	}
+	ml := spec.OpenMessageList(b, spec.OpenMessageErr)
+	for i := 0; i < ml.Len() && i < maxElems; i++ {
+		view("MessageList.Get", ml.Get(i).Raw())
+	}
+	if ml2, err := spec.OpenMessageListErr(b, spec.OpenMessageErr); err == nil {
+		for i := 0; i < ml2.Len() && i < maxElems; i++ {
+			if m, err := ml2.GetErr(i); err == nil {
+				view("MessageList.GetErr", m.Raw())
+			}
+		}
+	}
+	if pm, n, err := spec.ParseMessageList(b, spec.OpenMessageErr); err == nil {
+		size("ParseMessageList", n)
+		for i := 0; i < pm.Len() && i < maxElems; i++ {
+			view("ParseMessageList.Get", pm.Get(i).Raw())
+		}
+	} else {
+		size("ParseMessageList", n)
+	}
+	if _, n, _ := spec.DecodeStringClone(b); true {
+		size("DecodeStringClone", n)
+	}
+	if bad != "" {
+		return bad
+	}
+	return "ok"
 }
